@@ -249,3 +249,38 @@ func Boundary(r *rand.Rand) []byte {
 	}
 	return out
 }
+
+// FarPointer builds a name list longer than 256 octets whose last names end in compression pointers to label starts at
+// offsets beyond 255 (the pointer's offset field has 14 bits; its high six bits are rarely exercised by short inputs),
+// and a few to offsets below 256 whose low octet equals that of a far target.
+func FarPointer(r *rand.Rand) []byte {
+	var out []byte
+	var starts []int // label starts of complete, pointer-free names
+	for len(out) < 260+r.IntN(200) {
+		nl := 1 + r.IntN(4)
+		for i := 0; i < nl; i++ {
+			l := 1 + r.IntN(20)
+			starts = append(starts, len(out))
+			out = append(out, byte(l))
+			for j := 0; j < l; j++ {
+				out = append(out, byte('a'+r.IntN(26)))
+			}
+		}
+		out = append(out, 0)
+	}
+	for k := 1 + r.IntN(3); k > 0; k-- {
+		t := starts[r.IntN(len(starts))]
+		if r.IntN(4) != 0 { // prefer far targets
+			for tries := 0; tries < 8 && t < 256; tries++ {
+				t = starts[r.IntN(len(starts))]
+			}
+		}
+		l := 1 + r.IntN(5)
+		out = append(out, byte(l))
+		for j := 0; j < l; j++ {
+			out = append(out, byte('p'+r.IntN(4)))
+		}
+		out = append(out, 0xC0|byte(t>>8), byte(t))
+	}
+	return out
+}
